@@ -280,6 +280,40 @@ Theorem C07_store_step_terminates :
 Proof. exact store_step_terminates. Qed.
 Print Assumptions C07_store_step_terminates.
 
+(* ---- AutoSaveIndex = false and SaveIndex ([arun]: the store model wrapped with the flag) ----
+   Whatever the flag and wherever SaveIndex is called, Predecessors is exact after every
+   history in which no layout is (re)opened from an index.json that was not saved
+   ([snd r = true]: also no fuel exhaustion). *)
+Theorem C07_store_autosave_exact :
+  forall (content : node -> list node) (isman : node -> bool) (rank : node -> nat),
+    (forall p, content p <> [] -> isman p = true) ->
+    (forall p c, In c (content p) -> (rank c < rank p)%nat) ->
+    forall fuel ops n,
+      let r := arun content isman fuel empty_astore ops in
+      snd r = true ->
+      NoDup (predecessors (o_graph (a_s (fst r))) n) /\
+      forall p, In p (predecessors (o_graph (a_s (fst r))) n) <->
+                In p (o_blobs (a_s (fst r))) /\ In n (content p).
+Proof. exact autosave_history_exact. Qed.
+Print Assumptions C07_store_autosave_exact.
+
+(* the side condition is needed (and is the documented duty of the caller): AutoSaveIndex off,
+   push, reopen without SaveIndex: the pushed manifest is on disk and not indexed *)
+Theorem C07_store_unsaved_reopen_refuted :
+  exists content isman fuel ops n p,
+    (forall q, content q <> [] -> isman q = true) /\
+    let r := arun content isman fuel empty_astore ops in
+    snd r = false /\ In p (o_blobs (a_s (fst r))) /\ In n (content p) /\
+    ~ In p (predecessors (o_graph (a_s (fst r))) n).
+Proof. exact autosave_unsaved_reopen_refuted. Qed.
+Print Assumptions C07_store_unsaved_reopen_refuted.
+
+Example C07_store_saved_reopen_example :
+  let r := arun (ctab pf_ct) pf_isman 50 empty_astore
+             [ASetAuto false; AOp (PPush 0%N); AOp (PPush 2%N); ASaveIndex; AOp PReopen] in
+  snd r = true /\ predecessors (o_graph (a_s (fst r))) 0%N = [2%N].
+Proof. exact autosave_saved_reopen_example. Qed.
+
 (* Scope: [ops] are operations that COMPLETE.  An operation aborted by the environment
    half-way is not covered, and the statement is false there: a Delete whose unlink fails
    after Untag / graph.Remove / saveIndex (EPERM, open handle on NTFS) leaves the blob stored
